@@ -187,12 +187,17 @@ func (c *codecVolatile) DecodeTo(d *binary.Decoder, rv reflect.Value) (err error
 	for i := 0; i < int(size); i++ {
 		k, err := d.ReadSlice()
 		if err != nil {
-			return nil
+			return err
 		}
 
 		v, err := d.ReadSlice()
 		if err != nil {
-			return nil
+			return err
+		}
+
+		// The value must at least contain the add and remove times
+		if len(v) < 16 {
+			return errInvalidValue
 		}
 
 		out.data[binary.ToString(&k)] = decodeValue(binary.ToString(&v))
